@@ -9,11 +9,13 @@ package main
 import (
 	. "verifharness/internal/core"
 
+	"encoding/json"
 	"errors"
 	"fmt"
 	"net/http"
 	"net/http/httptest"
 	"net/url"
+	"os"
 	"sort"
 	"strings"
 	"time"
@@ -615,13 +617,49 @@ func runC16(c *Ctx) {
 		c.Add(gdec, &Case{
 			Key: map[string]string{"op": "decode", "side": side, "wire": w.label, "clock": clockLabel, "origin": w.org.kind},
 			Input: map[string]any{"deployment": target.name, "url": target.url, "key": target.key.name, "now_ns": now, "cookie": cookie, "token": w.bytes,
-				"fields": w.t.summary(), "origin": w.org.desc},
+				"fields": w.t.summary(), "origin": w.org.desc, "session_side": session, "wire_label": w.label, "clock_label": clockLabel,
+				"model_terms": map[string]string{"wire": wireTerm(w.t), "origin": w.org.term, "origin_kind": w.org.kind}},
 			Obs: obs,
 			Term: fmt.Sprintf("{| dc_opts := %s; dc_max_age := %s; dc_mid := %s; dc_session := %s; dc_now := %s; dc_origin := %s; dc_wire := %s; dc_cookie := %s; dc_ran := %s; dc_stage := %s; dc_sub := %s; dc_attrs := %s; dc_id := %s; dc_uri := %s |}",
-				target.optsTerm(), target.maxAgeTerm(), emit.Z(mid), emit.Bool(session), emit.Z(now), w.org.term, wireTerm(w.t), emit.Str(cookie),
+				target.optsTerm(), target.maxAgeTerm(), emit.Z(mid), emit.Bool(session), emit.Z(now), w.org.term, pickWire(w.t), emit.Str(cookie),
 				emit.Bool(ran), emit.Z(stage), emit.Str(sub), amapTerm(attrs), emit.Str(id), emit.Str(uri)),
 			Trivial: w.t == nil,
 		})
+	}
+
+	if p := os.Getenv("VERIF_REPLAY"); p != "" {
+		// re-run exactly one stored decode case: same deployment, instant, cookie name and token bytes
+		var rp struct {
+			Case struct {
+				Group string `json:"group"`
+				Input struct {
+					Deployment string            `json:"deployment"`
+					Now        int64             `json:"now_ns"`
+					Cookie     string            `json:"cookie"`
+					Token      string            `json:"token"`
+					Session    bool              `json:"session_side"`
+					Label      string            `json:"wire_label"`
+					Clock      string            `json:"clock_label"`
+					Terms      map[string]string `json:"model_terms"`
+				} `json:"input"`
+			} `json:"case"`
+		}
+		if b, err := os.ReadFile(p); err == nil && json.Unmarshal(b, &rp) == nil && rp.Case.Group == "dec" && byName[rp.Case.Input.Deployment] != nil {
+			in := rp.Case.Input
+			t, _ := parseTok(in.Token, "KNoKey", true)
+			w := &wireG{bytes: in.Token, t: t, label: in.Label, org: origin{kind: in.Terms["origin_kind"], term: in.Terms["origin"]}}
+			replayWire = in.Terms["wire"]
+			addDec(byName[in.Deployment], in.Session, in.Now, w, in.Cookie, in.Clock)
+			// only this case is evaluated
+			for _, g := range []*Group{gcfg, gmint, ggate, gjar} {
+				g.Cases = nil
+			}
+			c.N = len(gdec.Cases)
+			for i, cs := range gdec.Cases {
+				cs.Idx = i
+			}
+			return
+		}
 	}
 
 	// clock positions around a token's window (seconds claims iat/exp)
@@ -1001,8 +1039,14 @@ func runC16(c *Ctx) {
 		rawMut("header-bitflip", func(s string) string { return flip(s, 3) }),
 		rawMut("claims-bitflip", func(s string) string { i := strings.Index(s, ".") + 20; return flip(s, i) }),
 		rawMut("claims-bad-base64", func(s string) string { i := strings.Index(s, ".") + 5; return s[:i] + "!" + s[i+1:] }),
-		rawMut("header-not-json", func(s string) string { p := strings.Split(s, "."); return b64([]byte("not json")) + "." + p[1] + "." + p[2] }),
-		rawMut("claims-not-json", func(s string) string { p := strings.Split(s, "."); return p[0] + "." + b64([]byte("[1,2]")) + "." + p[2] }),
+		rawMut("header-not-json", func(s string) string {
+			p := strings.Split(s, ".")
+			return b64([]byte("not json")) + "." + p[1] + "." + p[2]
+		}),
+		rawMut("claims-not-json", func(s string) string {
+			p := strings.Split(s, ".")
+			return p[0] + "." + b64([]byte("[1,2]")) + "." + p[2]
+		}),
 		rawMut("claims-exp-string", func(s string) string {
 			p := strings.Split(s, ".")
 			return p[0] + "." + b64([]byte(`{"exp":"never","saml-session":true}`)) + "." + p[2]
@@ -1235,6 +1279,16 @@ func runC16(c *Ctx) {
 		}
 		addGate(h, "role", "admin", false)
 	}
+}
+
+// replayWire, when set, is the stored Gallina term of the wire under replay
+var replayWire string
+
+func pickWire(t *tok) string {
+	if replayWire != "" {
+		return replayWire
+	}
+	return wireTerm(t)
 }
 
 func min(a, b int) int {
